@@ -34,6 +34,7 @@ def run(ctx, rep):
     PR.check_combinators(fx, rep, "C05.6")
     R1.check_line_mapping_rule(fx, rep, "C05.4")
     PR.check_try_parse(fx, rep, "C05.7")
+    PR.check_iterator(fx, rep, "C05.8")
     import api_rules as AR
     AR.check_getters(fx, rep, "C05.api", "mapping::ParseError")
     AR.check_mapping_wiring(fx, rep, "C05.api")
